@@ -103,6 +103,10 @@ def r2(p, rep):
             facts = [(norm(t), pol) for t, pol in cfg.guards_of_ast(n)]
             name = n.args[0]
             is_number_axis = len(n.args) > 1 and isinstance(n.args[1], ast.Call) and isinstance(n.args[1].func, ast.Name) and n.args[1].func.id == "int"
+            # `Axis(m.group(1), int(m.group(2)))`: a NAMED axis whose token also carries a length (`b=4`) - the name is the
+            # user's, only a token that is nothing but a number makes a fresh axis
+            if is_number_axis and n.args[1].args and isinstance(n.args[1].args[0], ast.Call) and isinstance(n.args[1].args[0].func, ast.Attribute) and n.args[1].args[0].func.attr == "group" and isinstance(name, ast.Call) and isinstance(name.func, ast.Attribute) and name.func.attr == "group":
+                is_number_axis = False
             if is_number_axis:
                 found_digit = True
                 branch = enclosing(n, ast.If)
